@@ -36,7 +36,8 @@ RULE = ("Hypothesis-generated cases, five clauses. roundtrip: one JDE in [0, 5.4
         "JDE within 1 s of a whole minute (hence of any hour/day/month/year boundary) or within "
         "1 ms of a whole second, or an input form other than the plain numeric triple (every "
         "forms case), or a non-zero offset, or a pair less than 1 s apart; distinct = distinct "
-        "canonical case.")
+        "canonical case."
+        " On one roundtrip case in four the object is first asked for its date with an option (utc=True, leap_seconds=) before the plain queries.")
 ASSUMPTIONS = [
     "oracle: integer Julian Day Number + exact Fraction of the day; 5-14 October 1582 are not "
     "civil days (a read-back that lands there is a violation of 'day within the month')",
@@ -144,6 +145,15 @@ def body_roundtrip(case):
     if not abs(F(je) - F(j)) <= TOL8:
         raise Violation("Epoch(%r).jde() = %r (off by %.3e day)" % (j, je, je - j),
                         site="Epoch.set", kind="jde_roundtrip", jde=j, got=je, off=je - j)
+    # on one case in four the object is first asked for its date with an option (documented
+    # keywords of the same methods): the plain answers that follow are about the instant, not about
+    # what was asked before
+    k = int(abs(j) * 16.0) % 8
+    if k == 1:
+        e.get_date(utc=True)
+    elif k == 5:
+        e.get_full_date(utc=True)
+        e.get_date(leap_seconds=35)
     fd = e.get_full_date()
     what = "Epoch(%r).get_full_date()" % (j,)
     _check_fields(fd, what, "Epoch.get_full_date")
